@@ -141,7 +141,7 @@ func checkFixed(q *x, fc fixedCodec, v abiref.Value) {
 	want := fc.lay.Encode(v)
 	name := fc.lay.Name
 	witness := map[string]any{"value": fmt.Sprint(v), "reference_encoding": hx(want)}
-	c.Sample(map[string]any{"case": q.i, "structure": name, "value": fmt.Sprint(v.U), "reference_encoding": hx(want)})
+	c.Sample(map[string]any{"case": q.i, "structure": name, "value": fmt.Sprintf("%v %x", v.U, v.G), "reference_encoding": hx(want)})
 
 	// encode into an exactly-sized and into an oversized, canary-filled buffer
 	var enc []byte
